@@ -121,7 +121,8 @@ def gen_compound(r):
     def sq(root, *ns):
         return ["sq", ["q", root, [["child", [["name", n]]] for n in ns]]]
     fake_in_filter = r.choice([["test", ["q", "^", [["child", [["index", 0]]], ["child", [["name", "a"]]]]]], ["cmp", "==", ["sq", ["q", "^", [["child", [["index", 0]]], ["child", [["name", "k"]]]]]], sq("@", "k")], ["test", ["q", "^", [["child", [["filter", ["test", ["q", "@", [["child", [["name", "zz"]]]]]]]]]]]]])
-    must = ["and", ["cmp", "!=", ["key"], ["lit", "zz"]], ["or", ["cmp", "==", sq("@", "k"), sq("_", "k")], ["or", ["or", ["test", ["q", "$", [["child", [["name", "a"]]]]]], fake_in_filter], fg.logical()]]]
+    key_arg = r.choice([["call", "match", [["key"], ["lit", "[a-z0-9]*"]]], ["cmp", ">=", ["call", "length", [["key"]]], ["lit", 0]], ["call", "search", [["sq", ["q", "@", [["child", [["name", "k"]]]]]], ["key"]]], ["not", ["call", "match", [["key"], ["lit", "zz"]]]]])
+    must = ["and", ["or", ["cmp", "!=", ["key"], ["lit", "zz"]], key_arg], ["or", ["cmp", "==", sq("@", "k"), sq("_", "k")], ["or", ["or", ["test", ["q", "$", [["child", [["name", "a"]]]]]], fake_in_filter], fg.logical()]]]
     q1 = ["q", "$", [[r.choice(["child", "desc"]), [["filter", must]]]]]
     q2 = ["q", "^", [["child", [["filter", ["or", ["test", ["q", "@", [["child", [["keys"]]]]]], fg.logical()]]]]]]
     q3 = ["q", "$", [["desc", [["keys"]]]]] if r.random() < 0.5 else ["q", "$", [["child", [["wild"]]], ["child", [["keys"], ["name", "a"]]]]]
